@@ -10,90 +10,104 @@ Open Scope N_scope.
 
 Section C13.
 Context {T : Type}.     (* converted parameters (type ids) *)
+(* `syn::parse_str::<syn::TypePath>(&path).is_ok()`: the parser is not modelled;
+   every theorem holds for an arbitrary predicate, and the check feeds the
+   model the real parser's verdict on every tested path. *)
+Context (tp : ustring -> bool).
 Implicit Types (e : extension T) (x : ext_parse T) (cs : crates) (pol : unknown_policy).
 
 (* First sentence of the property: the schema is replaced by the external type
    EXACTLY when the extension is well formed (record, requirement, path starts
-   with the crate's identifier), its parameters convert, and the crate is
+   with the crate's identifier and is a type path), its parameters convert, and the crate is
    configured with a version matching the requirement, or with `*`, or is
    unconfigured under Allow. *)
 Theorem C13_decide_spec : forall cs pol x,
-  (exists p ps, decide cs pol x = Use p ps) <->
+  (exists p ps, decide tp cs pol x = Use p ps) <->
   (exists e rq, x = ExtOk e (Some rq)
      /\ starts_with (dash_to_us (x_crate e)) (x_path e)
+     /\ tp (x_path e) = true
      /\ (forall q, In q (x_params e) -> q <> None)
      /\ ((exists v rn, lookup cs (x_crate e) = Some (CS (CVVersion v) rn) /\ matches_req rq v = true)
          \/ (exists rn, lookup cs (x_crate e) = Some (CS CVAny rn))
          \/ (lookup cs (x_crate e) = None /\ pol = PAllow))).
-Proof. exact decide_spec. Qed.
+Proof. exact (decide_spec tp). Qed.
 
 (* "generated when the crate is marked `!`" *)
 Theorem C13_never_generates : forall cs pol e r rn,
-  lookup cs (x_crate e) = Some (CS CVNever rn) -> decide cs pol (ExtOk e r) = Generate.
-Proof. exact never_generates. Qed.
+  lookup cs (x_crate e) = Some (CS CVNever rn) -> decide tp cs pol (ExtOk e r) = Generate.
+Proof. exact (never_generates tp). Qed.
 
 (* "... the configured version does not satisfy the requirement" *)
 Theorem C13_mismatch_generates : forall cs pol e rq v rn,
   lookup cs (x_crate e) = Some (CS (CVVersion v) rn) -> matches_req rq v = false ->
-  decide cs pol (ExtOk e (Some rq)) = Generate.
-Proof. exact mismatch_generates. Qed.
+  decide tp cs pol (ExtOk e (Some rq)) = Generate.
+Proof. exact (mismatch_generates tp). Qed.
 
 (* "... the crate is unconfigured under Generate or Deny" *)
 Theorem C13_unconfigured_generate_or_deny_generates : forall cs pol e r,
-  lookup cs (x_crate e) = None -> pol <> PAllow -> decide cs pol (ExtOk e r) = Generate.
-Proof. exact unconfigured_generate_or_deny_generates. Qed.
+  lookup cs (x_crate e) = None -> pol <> PAllow -> decide tp cs pol (ExtOk e r) = Generate.
+Proof. exact (unconfigured_generate_or_deny_generates tp). Qed.
 
 (* "... or the extension is malformed (bad requirement, path not starting with
-   the crate's identifier)"; also: absent, and an unconvertible parameter *)
+   the crate's identifier)"; also: absent, path that is not a type path, and an
+   unconvertible parameter *)
 Theorem C13_malformed_generates : forall cs pol,
-  decide cs pol (@ExtAbsent T) = Generate
-  /\ decide cs pol (@ExtMalformed T) = Generate
-  /\ (forall e, decide cs pol (ExtOk e None) = Generate)
+  decide tp cs pol (@ExtAbsent T) = Generate
+  /\ decide tp cs pol (@ExtMalformed T) = Generate
+  /\ (forall e, decide tp cs pol (ExtOk e None) = Generate)
   /\ (forall e r, ~ starts_with (dash_to_us (x_crate e)) (x_path e) ->
-        decide cs pol (ExtOk e r) = Generate)
-  /\ (forall e r, In None (x_params e) -> decide cs pol (ExtOk e r) = Generate).
-Proof. exact malformed_generates. Qed.
+        decide tp cs pol (ExtOk e r) = Generate)
+  /\ (forall e r, tp (x_path e) = false -> decide tp cs pol (ExtOk e r) = Generate)
+  /\ (forall e r, In None (x_params e) -> decide tp cs pol (ExtOk e r) = Generate).
+Proof. exact (malformed_generates tp). Qed.
 
 (* Second sentence: the substituted path is "::" ++ path with the first segment
    (what precedes the first "::", equal to the crate identifier) replaced by the
    configured rename ('-' -> '_'), parameters applied in order. *)
 Theorem C13_decide_path : forall cs pol x p ps,
-  decide cs pol x = Use p ps ->
+  decide tp cs pol x = Use p ps ->
   exists e rq rest,
     x = ExtOk e (Some rq)
     /\ x_path e = dash_to_us (x_crate e) ++ sep ++ rest
     /\ (forall a b, x_path e = a ++ sep ++ b -> (length (dash_to_us (x_crate e)) <= length a)%nat)
     /\ p = sep ++ head_segment cs (x_crate e) ++ sep ++ rest
     /\ map Some ps = x_params e.
-Proof. exact decide_path. Qed.
+Proof. exact (decide_path tp). Qed.
 
 (* "the schema's own structure is not generated": the structural conversion is
    reached exactly when the decision is Generate *)
 Theorem C13_use_skips_structure : forall cs pol n x,
-  (convert_ref_def cs pol n x = DefStructural <-> decide cs pol x = Generate)
-  /\ (forall p ps, decide cs pol x = Use p ps ->
-        convert_ref_def cs pol n x = DefNative p ps \/ convert_ref_def cs pol n x = DefNewtype p ps).
-Proof. exact use_skips_structure. Qed.
+  (convert_ref_def tp cs pol n x = DefStructural <-> decide tp cs pol x = Generate)
+  /\ (forall p ps, decide tp cs pol x = Use p ps ->
+        convert_ref_def tp cs pol n x = DefNative p ps \/ convert_ref_def tp cs pol n x = DefNewtype p ps).
+Proof. exact (use_skips_structure tp). Qed.
 
 (* "directly, or through a transparent newtype named after the definition when
    the names differ": a newtype exactly when there are no parameters and the
    definition's name is not the path's last segment *)
 Theorem C13_wrapper_iff_names_differ : forall cs pol n x p ps,
-  decide cs pol x = Use p ps ->
-  (convert_ref_def cs pol n x = DefNewtype p ps <-> ps = [] /\ n <> NRequired (last_segment p))
-  /\ (convert_ref_def cs pol n x = DefNative p ps <-> ps <> [] \/ n = NRequired (last_segment p)).
-Proof. exact wrapper_iff_names_differ. Qed.
+  decide tp cs pol x = Use p ps ->
+  (convert_ref_def tp cs pol n x = DefNewtype p ps <-> ps = [] /\ n <> NRequired (last_segment p))
+  /\ (convert_ref_def tp cs pol n x = DefNative p ps <-> ps <> [] \/ n = NRequired (last_segment p)).
+Proof. exact (wrapper_iff_names_differ tp). Qed.
 
 (* a configured version decides by Cargo's documented requirement semantics *)
 Theorem C13_version_policy_is_cargo : forall cs pol e rq v rn,
   lookup cs (x_crate e) = Some (CS (CVVersion v) rn) ->
   forallb wf_comparator rq = true ->
   vpre v = [] \/ forallb is_full rq = true ->
-  ((exists p ps, decide cs pol (ExtOk e (Some rq)) = Use p ps) <->
+  ((exists p ps, decide tp cs pol (ExtOk e (Some rq)) = Use p ps) <->
    starts_with (dash_to_us (x_crate e)) (x_path e)
+   /\ tp (x_path e) = true
    /\ (forall q, In q (x_params e) -> q <> None)
    /\ sat_cargo rq v = true).
-Proof. exact version_policy_is_cargo. Qed.
+Proof. exact (version_policy_is_cargo tp). Qed.
+
+(* Finding C13-F1, fixed by /repo 31fad76: before the fix this statement was
+   refuted (`util::` was used and to_stream() panicked); it now holds. *)
+Theorem C13_non_type_path_generates : forall cs pol e r,
+  tp (x_path e) = false -> decide tp cs pol (ExtOk e r) = Generate.
+Proof. exact (non_type_path_generates tp). Qed.
 
 End C13.
 
@@ -133,15 +147,6 @@ Theorem C13_pre_compare_total_order :
   (forall a, a <> [] -> pre_compare a [] = Lt).
 Proof. exact pre_compare_total_order. Qed.
 
-(* Finding C13-F1.  The README gives `path` the pattern
-   ^[a-zA-Z0-9_]+(::[a-zA-Z0-9_]+)*$; the statement
-     forall cs pol e r, readme_path_ok (x_path e) = false -> decide cs pol (ExtOk e r) = Generate
-   ("generated when the extension is malformed") is REFUTED: `util::` is used. *)
-Theorem C13_unvalidated_path_refuted :
-  exists (cs : crates) pol (e : extension unit) rq p ps,
-    readme_path_ok (x_path e) = false /\ decide cs pol (ExtOk e (Some rq)) = Use p ps.
-Proof. exact unvalidated_path_witness. Qed.
-
 (* ------------------------------------------------------------ non-vacuity *)
 From Coq Require Import String.
 Open Scope string_scope.
@@ -150,24 +155,28 @@ Definition ex_ext : extension ustring :=
 Definition ex_req : req := [C Caret 1 (Some 2) (Some 3) []].               (* "1.2.3" *)
 
 Example ex_version_use :
-  show_decision (decide (mk_crates [("my-crate", CVVersion (V 1 4 0 []), Some "re-named")]) PGenerate
+  show_decision (decide (fun _ => true) (mk_crates [("my-crate", CVVersion (V 1 4 0 []), Some "re-named")]) PGenerate
                         (ExtOk ex_ext (Some ex_req)))
   = "use ::re_named::m::Thing<i64>".
 Proof. vm_compute. reflexivity. Qed.
 
 Example ex_version_mismatch :
-  decide (mk_crates [("my-crate", CVVersion (V 2 0 0 []), None)]) PAllow (ExtOk ex_ext (Some ex_req)) = Generate.
+  decide (fun _ => true) (mk_crates [("my-crate", CVVersion (V 2 0 0 []), None)]) PAllow (ExtOk ex_ext (Some ex_req)) = Generate.
 Proof. vm_compute. reflexivity. Qed.
 
 Example ex_allow_use :
-  show_decision (decide [] PAllow (ExtOk ex_ext (Some ex_req))) = "use ::my_crate::m::Thing<i64>".
+  show_decision (decide (fun _ => true) [] PAllow (ExtOk ex_ext (Some ex_req))) = "use ::my_crate::m::Thing<i64>".
 Proof. vm_compute. reflexivity. Qed.
 
 Example ex_newtype :
-  show_def (convert_ref_def (mk_crates [("my-crate", CVAny, None)]) PGenerate
+  show_def (convert_ref_def (fun _ => true) (mk_crates [("my-crate", CVAny, None)]) PGenerate
               (NRequired (ustring_of_string "Alias"))
               (ExtOk (mk_ext "my-crate" "my_crate::m::Thing" []) (Some ex_req)))
   = "newtype ::my_crate::m::Thing".
+Proof. vm_compute. reflexivity. Qed.
+
+Example ex_not_type_path :
+  decide (fun _ => false) [] PAllow (ExtOk (mk_ext "util" "util::" []) (Some ex_req)) = Generate.
 Proof. vm_compute. reflexivity. Qed.
 
 Example ex_starts_with : starts_with (ustring_of_string "a") (ustring_of_string "a::b").
